@@ -53,10 +53,9 @@ UeRecS(d) ==
       den |-> DD(d), rden |-> RampDen(DD(d)), cover |-> d.cover, normalize |-> d.normalize,
       norm2 |-> Norm2(d), e |-> ExtSeq(ZcSeq(nzc, SessU), SessL), ramp |-> Ramp(d.ncs, DD(d), SessL), key |-> d]
 NrxOf(v) == 1 + (v % 3)
-SessScenario(d, o, v) ==
-  ScenarioX(EstFam(d), SessL, NrxOf(v), v,
-            [has |-> TRUE, ct |-> d.ncs, cover |-> d.cover, normalize |-> d.normalize, asarray |-> o.arr,
-             mult |-> o.mult, u |-> SessU, kw |-> IF v % 4 = 1 THEN 2 ELSE IF v % 4 = 3 THEN 1 ELSE 0])
+SessOv(d, o, v) == [has |-> TRUE, ct |-> d.ncs, cover |-> d.cover, normalize |-> d.normalize, asarray |-> o.arr,
+                    mult |-> o.mult, u |-> SessU, kw |-> IF v % 4 = 1 THEN 2 ELSE IF v % 4 = 3 THEN 1 ELSE 0]
+SessScenario(d, o, v) == ScenarioX(EstFam(d), SessL, NrxOf(v), v, SessOv(d, o, v))
 EstRecS(d, o, v) == LET sc == SessScenario(d, o, v)
                     IN [kind |-> "est", sc |-> sc, est |-> EstTaps(sc), scales |-> ObsScales, key |-> [d |-> d, o |-> o, v |-> v]]
 
@@ -84,7 +83,7 @@ CreateEst(i, o) ==
   /\ UNCHANGED <<rootDen, users, phase>>
 
 \* estimator j . estimate_channel_freq_domain(observation of variant v, keep(v) [, extra_dimension(v)])
-KeepOf(j, v) == SessScenario(users[ests[j].user].d, ests[j].o, v).keep
+KeepOf(j, v) == ScenKeep(EstFam(users[ests[j].user].d), SessL, NrxOf(v), v, SessOv(users[ests[j].user].d, ests[j].o, v))
 Estimate(j, v) ==
   /\ phase = "run" /\ j \in 1..Len(ests)
   /\ ests' = [ests EXCEPT ![j].win = IF Dev.WindowCachedOnEstimator /\ @ < 0 THEN KeepOf(j, v) ELSE @,
